@@ -231,6 +231,9 @@ def extract_enums(repo, notes):
             return None
         back = {v: int(n) for n, v in re.findall(r"(\d+)\s*=>\s*Ok\(\s*" + e + r"::(\w+)\s*\)", tb)}
         has_reject = re.search(r"_\s*=>\s*Err\(", tb) is not None
+        # the table is matched against the full 32-bit ordinal (not a cast or a masked value)
+        full_width = re.search(r"fn\s+try_from\s*\(\s*value\s*:\s*VarInt\s*\)", tb) is not None and re.search(r"match\s+value\s*\{", tb) is not None
+        has_reject = has_reject and full_width
         vals = sorted(fwd.values())
         contiguous = vals == list(range(vals[0], vals[0] + len(vals)))
         if fwd == back and contiguous and has_reject:
